@@ -458,7 +458,10 @@ class Var:
             v = [x + y if sg > 0 else x - y for x, y in zip(a.val, b.val)]
         else:
             v = [[x + y if sg > 0 else x - y for x, y in zip(r, s)] for r, s in zip(a.val, b.val)]
-        return a._new(v, a.unit, dt, b, _or(a.buf.nan, b.buf.nan), _and(a.buf.defd, b.buf.defd), None)
+        rel = None
+        if sg > 0 and ka == 'scalar' and a.buf.rel is not None and b.buf.rel is not None and z3.is_expr(a.val) and z3.is_expr(b.val) and z3.eq(a.val, b.val):
+            rel = max(a.buf.rel, b.buf.rel)       # x + x: doubling is exact in binary floating point
+        return a._new(v, a.unit, dt, b, _or(a.buf.nan, b.buf.nan), _and(a.buf.defd, b.buf.defd), rel)
 
     def __add__(a, b):
         return a._add(b, 1, 'add')
